@@ -193,6 +193,14 @@ def request_mutants(xml, typ, signed, deep):
     yield "issue-instant-stale", "time", d.set_attr(root, "IssueInstant", clock.iso(now - 3 * 86400)).text()
     yield "issue-instant-future", "time", d.set_attr(root, "IssueInstant", clock.iso(now + 3 * 86400)).text()
     yield "issue-instant-garbage", "time", d.set_attr(root, "IssueInstant", "yesterday").text()
+    # the same stale / future instants written as local time with a zone offset (legal xs:dateTime; read without its offset the text alone
+    # would lie inside the window)
+    for name, delta, zone in (("stale-26h-written-plus-14", -26 * 3600, 14), ("stale-3d-written-plus-14", -3 * 86400, 14), ("future-26h-written-minus-12", 26 * 3600, -12),
+                              ("stale-30h-written-plus-05:30", -30 * 3600, 5.5)):
+        local = now + delta + zone * 3600
+        z = "%s%02d:%02d" % ("+" if zone >= 0 else "-", int(abs(zone)), int(round((abs(zone) % 1) * 60)))
+        yield "issue-instant-" + name, "time", d.set_attr(root, "IssueInstant", clock.iso(local, z=False) + z).text()
+        yield "issue-instant-" + name + "-fraction", "time", d.set_attr(root, "IssueInstant", clock.iso(local, z=False) + ".250" + z).text()
     yield "id-removed", "schema", d.set_attr(root, "ID", None).text()
     yield "issue-instant-removed", "schema", d.set_attr(root, "IssueInstant", None).text()
     # wrong root element: same content under another request name
